@@ -318,14 +318,14 @@ def c10(ctx):
     if ctx.quick():
         hists = [x for i, x in enumerate(hists) if (i + ctx.seed) % 250 == 0]
     else:
-        hists = [x for i, x in enumerate(hists) if (i + ctx.seed) % 4 == 0]
+        hists = [x for i, x in enumerate(hists) if (i + ctx.seed) % 25 == 0]
     genf = os.path.join(ctx.gen, "mem_hist.ndjson")
     with open(genf, "w") as f:
         for x in hists:
             f.write(json.dumps(x) + "\n")
     tr = os.path.join(ctx.traces, "mem.ndjson")
-    nh, ln = (12, 40) if ctx.quick() else (400, 60)
-    sv(binary, ["mem", "--gen", genf, "--seed", ctx.seed, "--hist", nh, "--len", ln, "--out", tr], ctx=ctx)
+    nh, ln = (12, 40) if ctx.quick() else (150, 50)
+    sv(binary, ["mem", "--gen", genf, "--seed", ctx.seed, "--hist", nh, "--len", ln, "--out", tr], ctx=ctx, timeout=9000)
     trace = read_trace(tr)
     mism = trace_check(ctx, "Trace_Mem", tr)
     seg, segs, impl_of = 0, [], []
